@@ -21,6 +21,11 @@ func main() {
 		os.Exit(2)
 	}
 	switch os.Args[1] {
+	case "packages":
+		// <id> <short package paths loaded by the quick tier>
+		for _, id := range props.IDs() {
+			fmt.Printf("%s %s\n", id, strings.Join(props.Get(id).Packages, " "))
+		}
 	case "list":
 		for _, id := range props.IDs() {
 			p := props.Get(id)
